@@ -516,6 +516,26 @@ class Layout:
             line += " /* c */"
         return [line]
 
+    def string_lines(self):
+        """a string literal that spans several lines, with doubled quotes before / behind its line breaks, in either quote style"""
+        r = self.rng
+        self.features.add("string-literal-over-several-lines")
+        q = r.choice(['"', '"', "'"])
+        n = r.choice([2, 2, 3, 4])
+        parts = []
+        for i in range(n):
+            words = [r.choice(["alpha", "beta", "x1", "", "  ", "1 + 2;"]) for _ in range(r.randint(0, 3))]
+            if r.random() < 0.5:
+                self.features.add("doubled-quote-in-multi-line-string")
+                words.insert(r.randint(0, len(words)), q + q)
+            if r.random() < 0.15:
+                words.append(q + q)
+            parts.append(" ".join(words))
+        lines = parts[:]
+        lines[0] = r.choice(["", " ", "\t"]) + "%s = %s%s" % (self.var(), q, parts[0])
+        lines[-1] = parts[-1] + q + ";" + r.choice(["", " %s = 1;" % self.var(), " // c"])
+        return lines
+
     def call_lines(self):
         """a call of a function-like macro whose argument list is spread over several lines"""
         r = self.rng
@@ -540,6 +560,8 @@ class Layout:
         k = r.random()
         if k < 0.08 and self.funcs:
             return self.call_lines()
+        if k < 0.14:
+            return self.string_lines()
         if k < 0.3:
             return self.code_line()
         if k < 0.4:
